@@ -3,37 +3,220 @@ import TemplVerif.Model.SourceMap
 namespace TemplVerif.Proofs.Pos
 open TemplVerif TemplVerif.Pos TemplVerif.SourceMap
 
+theorem newLinesFrom_append (base : Nat) (a c : Bytes) :
+    newLinesFrom base (a ++ c) = newLinesFrom base a ++ newLinesFrom (base + a.length) c := by
+  induction a generalizing base with
+  | nil => simp [newLinesFrom]
+  | cons b rest ih =>
+    simp only [List.cons_append, newLinesFrom, List.length_cons]
+    rw [ih]
+    have : base + 1 + rest.length = base + (rest.length + 1) := by omega
+    rw [this]
+    split <;> simp
+
+theorem newLinesFrom_lt (base : Nat) (a : Bytes) : ∀ x ∈ newLinesFrom base a, x < base + a.length := by
+  induction a generalizing base with
+  | nil => simp [newLinesFrom]
+  | cons b rest ih =>
+    intro x hx
+    simp only [newLinesFrom] at hx
+    have := ih (base + 1)
+    simp only [List.length_cons]
+    split at hx
+    · rcases List.mem_cons.mp hx with h | h
+      · omega
+      · have := this x h; omega
+    · have := this x hx; omega
+
+theorem newLinesFrom_ge (base : Nat) (a : Bytes) : ∀ x ∈ newLinesFrom base a, base ≤ x := by
+  induction a generalizing base with
+  | nil => simp [newLinesFrom]
+  | cons b rest ih =>
+    intro x hx
+    simp only [newLinesFrom] at hx
+    have := ih (base + 1)
+    split at hx
+    · rcases List.mem_cons.mp hx with h | h
+      · omega
+      · have := this x h; omega
+    · have := this x hx; omega
+
+theorem searchLine_append (l1 l2 : List Nat) (i : Nat) (h1 : ∀ x ∈ l1, x < i) (h2 : ∀ x ∈ l2, i ≤ x) :
+    searchLine (l1 ++ l2) i = l1.length := by
+  induction l1 with
+  | nil =>
+    cases l2 with
+    | nil => simp [searchLine]
+    | cons y r => simp [searchLine, h2 y (by simp)]
+  | cons x r ih =>
+    have hx := h1 x (by simp)
+    simp only [List.cons_append, searchLine, List.length_cons]
+    rw [if_neg (by omega), ih (fun y hy => h1 y (by simp [hy]))]
+    omega
+
+/-- one past the last entry, or 0 -/
+def lastPlus (l : List Nat) : Nat := if l.length > 0 then l.getD (l.length - 1) 0 + 1 else 0
+
+theorem lastPlus_snoc (l : List Nat) (x : Nat) : lastPlus (l ++ [x]) = x + 1 := by
+  simp [lastPlus, List.getD]
+
+theorem lineOf_succ (s : Bytes) (i : Nat) (h : i < s.length) :
+    lineOf s (i + 1) = lineOf s i + (if s[i] = 10 then 1 else 0) := by
+  simp only [lineOf, List.take_succ_eq_append_getElem h, List.count_append]
+  split <;> simp_all
+
+theorem lineStart_succ (s : Bytes) (i : Nat) (h : i < s.length) :
+    lineStart s (i + 1) = if s[i] = 10 then i + 1 else lineStart s i := by
+  simp only [lineStart, List.take_succ_eq_append_getElem h, List.reverse_append, List.reverse_cons,
+    List.reverse_nil, List.nil_append, List.cons_append]
+  by_cases hb : s[i] = 10
+  · simp [hb, List.idxOf?_cons]
+  · simp only [hb, if_false, List.idxOf?_cons]
+    have : (s[i] == 10) = false := by simp [hb]
+    simp only [this]
+    cases (List.idxOf? 10 (List.take i s).reverse) with
+    | none => simp
+    | some k => simp
+
+theorem lineStart_le (s : Bytes) (i : Nat) : lineStart s i ≤ i := by
+  simp only [lineStart]; split <;> omega
+
+theorem nl_take_succ (s : Bytes) (i : Nat) (h : i < s.length) :
+    newLines (s.take (i + 1)) = newLines (s.take i) ++ (if s[i] = 10 then [i] else []) := by
+  simp only [newLines, List.take_succ_eq_append_getElem h, newLinesFrom_append]
+  have : (List.take i s).length = i := by simp; omega
+  simp [this, newLinesFrom]
+
+theorem nl_take_spec (s : Bytes) (i : Nat) (h : i ≤ s.length) :
+    (newLines (s.take i)).length = lineOf s i ∧ lastPlus (newLines (s.take i)) = lineStart s i := by
+  induction i with
+  | zero => simp [newLines, newLinesFrom, lineOf, lineStart, lastPlus]
+  | succ i ih =>
+    have hi : i < s.length := by omega
+    obtain ⟨h1, h2⟩ := ih (by omega)
+    rw [nl_take_succ s i hi, lineOf_succ s i hi, lineStart_succ s i hi]
+    by_cases hb : s[i] = 10
+    · simp only [hb, if_true, lastPlus_snoc, List.length_append, h1]; simp
+    · simp [hb, h1, h2]
+
+theorem positionAt_eq (s : Bytes) (i : Nat) (h : i ≤ s.length) :
+    positionAt s i = ⟨i, (newLines (s.take i)).length, i - lastPlus (newLines (s.take i))⟩ := by
+  have hs : newLines s = newLines (s.take i) ++ newLinesFrom i (s.drop i) := by
+    have := newLinesFrom_append 0 (s.take i) (s.drop i)
+    rw [List.take_append_drop] at this
+    have hl : (List.take i s).length = i := by simp; omega
+    simpa [newLines, hl] using this
+  have hsearch : searchLine (newLines s) i = (newLines (s.take i)).length := by
+    rw [hs]
+    apply searchLine_append
+    · intro x hx
+      have := newLinesFrom_lt 0 (s.take i) x hx
+      simp at this; omega
+    · exact newLinesFrom_ge i _
+  simp only [positionAt, hsearch]
+  congr 1
+  simp only [lastPlus]
+  by_cases hp : (newLines (s.take i)).length > 0
+  · simp only [hp, if_true]
+    rw [hs]
+    simp only [List.getD_eq_getElem?_getD]
+    rw [List.getElem?_append_left (by omega)]
+  · simp [hp]
+
 /-- `PositionAt` computes: line = number of LF bytes before the index, column = distance from the start of that line. -/
 theorem positionAt_spec (src : Bytes) (i : Nat) (h : i ≤ src.length) :
     positionAt src i = ⟨i, lineOf src i, i - lineStart src i⟩ := by
-  sorry
+  rw [positionAt_eq src i h]
+  obtain ⟨h1, h2⟩ := nl_take_spec src i h
+  rw [h1, h2]
 
 theorem clamp_ordered (start stop len : Nat) : (clamp start stop len).1 ≤ (clamp start stop len).2 ∧ (clamp start stop len).2 ≤ len := by
-  sorry
+  simp only [clamp]; omega
 
 /-- n applications of a step function that may stop (`none`). -/
 def iter (step : Nat → Option Nat) : Nat → Nat → Option Nat
   | 0, i => some i
   | n + 1, i => (step i).bind (iter step n)
 
+theorem iter_none_aux (step : Nat → Option Nat) (len : Nat)
+    (hadv : ∀ i j, step i = some j → i < j ∧ j ≤ len) :
+    ∀ n i, i ≤ len → len - i < n → iter step n i = none := by
+  intro n
+  induction n with
+  | zero => intro i _ h; omega
+  | succ n ih =>
+    intro i hi hn
+    simp only [iter]
+    cases hs : step i with
+    | none => rfl
+    | some j =>
+      obtain ⟨h1, h2⟩ := hadv i j hs
+      simp only [Option.bind_some]
+      exact ih j h2 (by omega)
+
 /-- The termination argument of the parser's node-list and script loops: if every iteration either stops or strictly
     advances the index, which never exceeds `len`, then the loop stops within `len - i + 1` iterations. -/
 theorem loop_terminates (step : Nat → Option Nat) (len : Nat)
     (hadv : ∀ i j, step i = some j → i < j ∧ j ≤ len) (i : Nat) (hi : i ≤ len) :
-    iter step (len - i + 1) i = none := by
-  sorry
+    iter step (len - i + 1) i = none :=
+  iter_none_aux step len hadv _ i hi (by omega)
 
 theorem advance_index (p : Pos) (v : Bytes) : (advance p v).index = p.index + v.length := by
-  sorry
+  induction v generalizing p with
+  | nil => simp [advance]
+  | cons b rest ih =>
+    simp only [advance]
+    split <;> (rw [ih]; simp; omega)
 
 theorem advance_append (p : Pos) (a b : Bytes) : advance p (a ++ b) = advance (advance p a) b := by
-  sorry
+  induction a generalizing p with
+  | nil => simp [advance]
+  | cons x rest ih =>
+    simp only [List.cons_append, advance]
+    split <;> rw [ih]
+
+theorem positionAt_succ (S : Bytes) (i : Nat) (h : i < S.length) :
+    positionAt S (i + 1) = advance (positionAt S i) [S[i]] := by
+  rw [positionAt_spec S (i+1) (by omega), positionAt_spec S i (by omega), lineOf_succ S i h, lineStart_succ S i h]
+  have := lineStart_le S i
+  by_cases hb : S[i] = 10
+  · simp [hb, advance]
+  · simp [hb, advance]; omega
 
 /-- Walking over text that is actually there keeps a position consistent with `positionAt`. -/
 theorem advance_positionAt (S : Bytes) (p : Pos) (v : Bytes) (hp : positionAt S p.index = p)
     (hv : List.isPrefixOf v (S.drop p.index) = true) :
     positionAt S (p.index + v.length) = advance p v := by
-  sorry
+  induction v generalizing p with
+  | nil => simpa [advance] using hp
+  | cons b rest ih =>
+    cases hd : S.drop p.index with
+    | nil => simp [hd] at hv
+    | cons c tl =>
+      rw [hd] at hv
+      simp only [List.isPrefixOf, Bool.and_eq_true, beq_iff_eq] at hv
+      obtain ⟨hbc, hrest⟩ := hv
+      subst hbc
+      have hlt : p.index < S.length := by
+        by_cases h : p.index < S.length
+        · exact h
+        · rw [List.drop_eq_nil_of_le (by omega)] at hd; cases hd
+      have hSi : S[p.index] = b := by
+        have := List.getElem_drop (xs := S) (i := p.index) (j := 0) (h := by simp; omega)
+        simp [hd] at this; exact this.symm
+      have hsucc := positionAt_succ S p.index hlt
+      rw [hp, hSi] at hsucc
+      have htl : S.drop (p.index + 1) = tl := by
+        have : S.drop (p.index + 1) = (S.drop p.index).drop 1 := by simp [List.drop_drop]
+        rw [this, hd]; rfl
+      have hidx : (advance p [b]).index = p.index + 1 := by rw [advance_index]; simp
+      have := ih (advance p [b]) (by rw [hidx]; exact hsucc) (by rw [hidx, htl]; exact hrest)
+      rw [hidx] at this
+      have e : advance p (b :: rest) = advance (advance p [b]) rest := by
+        rw [← advance_append]; rfl
+      rw [e, ← this]
+      congr 1
+      simp; omega
 
 /-- No invalid byte: every decoding step of `runeWidths` sees a validly encoded rune. -/
 def validUtf8Aux : Nat → Bytes → Bool
@@ -45,6 +228,443 @@ def validUtf8Aux : Nat → Bytes → Bool
 
 def validUtf8 (s : Bytes) : Bool := validUtf8Aux s.length s
 
+theorem decodeRune_width_le (s : Bytes) : (Utf8.decodeRune s).2 ≤ s.length := by
+  unfold Utf8.decodeRune
+  repeat' split
+  all_goals first | (simp; done) | (simp only []; split <;> simp)
+
+theorem isCont_ne_lf (b : UInt8) (h : Utf8.isCont b = true) : b ≠ 10 := by
+  intro hb; subst hb; revert h; decide
+
+theorem decodeRune_valid (b0 : UInt8) (rest : Bytes) (r w : Nat)
+    (hd : Utf8.decodeRune (b0 :: rest) = (r, w)) (hv : (r == Utf8.runeError && decide (w ≤ 1)) = false) :
+    1 ≤ w ∧ (b0 ≠ 10 → ∀ x ∈ (b0 :: rest).take w, x ≠ 10) ∧
+      ∀ t, Utf8.decodeRune ((b0 :: rest).take w ++ t) = (r, w) := by
+  have hb0 : b0.toNat < 256 := UInt8.toNat_lt b0
+  unfold Utf8.decodeRune at hd
+  simp only [] at hd
+  split at hd
+  · simp only [Prod.mk.injEq] at hd; obtain ⟨hr, hw⟩ := hd; subst hr; subst hw
+    refine ⟨by omega, ?_, ?_⟩
+    · intro h x hx; simp at hx; simp [hx, h]
+    · intro t; simp [Utf8.decodeRune, *]
+  split at hd
+  · simp only [Prod.mk.injEq] at hd; obtain ⟨hr, hw⟩ := hd; subst hr; subst hw; simp at hv
+  split at hd
+  · -- two bytes
+    cases rest with
+    | nil => simp only [Prod.mk.injEq] at hd; obtain ⟨hr, hw⟩ := hd; subst hr; subst hw; simp at hv
+    | cons b1 r1 =>
+      simp only [] at hd
+      split at hd
+      · rename_i hc
+        simp only [Prod.mk.injEq] at hd; obtain ⟨hr, hw⟩ := hd; subst hr; subst hw
+        refine ⟨by omega, ?_, ?_⟩
+        · intro h x hx
+          simp at hx
+          rcases hx with rfl | rfl
+          · exact h
+          · exact isCont_ne_lf _ hc
+        · intro t; simp [Utf8.decodeRune, *]
+      · simp only [Prod.mk.injEq] at hd; obtain ⟨hr, hw⟩ := hd; subst hr; subst hw; simp at hv
+  split at hd
+  · -- three bytes
+    match rest, hd with
+    | [], hd => simp only [Prod.mk.injEq] at hd; obtain ⟨hr, hw⟩ := hd; subst hr; subst hw; simp at hv
+    | [_], hd => simp only [Prod.mk.injEq] at hd; obtain ⟨hr, hw⟩ := hd; subst hr; subst hw; simp at hv
+    | b1 :: b2 :: r2, hd =>
+      simp only [] at hd
+      by_cases hc : (decide ((if (b0 == 224) = true then (160 : UInt8) else 128) ≤ b1) &&
+                decide (b1 ≤ if (b0 == 237) = true then 159 else 191) && Utf8.isCont b2) = true
+      · rw [if_pos hc] at hd
+        simp only [Prod.mk.injEq] at hd; obtain ⟨hr, hw⟩ := hd; subst hr; subst hw
+        refine ⟨by omega, ?_, ?_⟩
+        · intro h x hx
+          simp at hx
+          simp only [Bool.and_eq_true, decide_eq_true_eq] at hc
+          rcases hx with rfl | rfl | rfl
+          · exact h
+          · intro h10; subst h10; revert hc; split <;> simp
+          · exact isCont_ne_lf _ hc.2
+        · intro t
+          simp only [List.take, List.cons_append, List.nil_append]
+          unfold Utf8.decodeRune
+          simp only []
+          rw [if_neg ‹_›, if_neg ‹_›, if_neg ‹_›, if_pos ‹_›, if_pos hc]
+      · rw [if_neg hc] at hd
+        simp only [Prod.mk.injEq] at hd; obtain ⟨hr, hw⟩ := hd; subst hr; subst hw; simp at hv
+  split at hd
+  · -- four bytes
+    match rest, hd with
+    | [], hd => simp only [Prod.mk.injEq] at hd; obtain ⟨hr, hw⟩ := hd; subst hr; subst hw; simp at hv
+    | [_], hd => simp only [Prod.mk.injEq] at hd; obtain ⟨hr, hw⟩ := hd; subst hr; subst hw; simp at hv
+    | [_, _], hd => simp only [Prod.mk.injEq] at hd; obtain ⟨hr, hw⟩ := hd; subst hr; subst hw; simp at hv
+    | b1 :: b2 :: b3 :: r3, hd =>
+      simp only [] at hd
+      by_cases hc : (decide ((if (b0 == 240) = true then (144 : UInt8) else 128) ≤ b1) &&
+                decide (b1 ≤ if (b0 == 244) = true then 143 else 191) && Utf8.isCont b2 && Utf8.isCont b3) = true
+      · rw [if_pos hc] at hd
+        simp only [Prod.mk.injEq] at hd; obtain ⟨hr, hw⟩ := hd; subst hr; subst hw
+        refine ⟨by omega, ?_, ?_⟩
+        · intro h x hx
+          simp at hx
+          simp only [Bool.and_eq_true, decide_eq_true_eq] at hc
+          rcases hx with rfl | rfl | rfl | rfl
+          · exact h
+          · intro h10; subst h10; revert hc; split <;> simp
+          · exact isCont_ne_lf _ hc.1.2
+          · exact isCont_ne_lf _ hc.2
+        · intro t
+          simp only [List.take, List.cons_append, List.nil_append]
+          unfold Utf8.decodeRune
+          simp only []
+          rw [if_neg ‹_›, if_neg ‹_›, if_neg ‹_›, if_neg ‹_›, if_pos ‹_›, if_pos hc]
+      · rw [if_neg hc] at hd
+        simp only [Prod.mk.injEq] at hd; obtain ⟨hr, hw⟩ := hd; subst hr; subst hw; simp at hv
+  · simp only [Prod.mk.injEq] at hd; obtain ⟨hr, hw⟩ := hd; subst hr; subst hw; simp at hv
+
+
+def mkE (pa pb : Pos) : Entry := ⟨pa.line, pa.col, pb⟩
+def shift (p : Pos) (w : Nat) : Pos := ⟨p.index + w, p.line, p.col + w⟩
+def nextLine (p : Pos) (n : Nat) : Pos := ⟨p.index + n + 1, p.line + 1, 0⟩
+
+def lineEntries : List Nat → Pos → Pos → List Entry
+  | [], pa, pb => [mkE pa pb]
+  | w :: rest, pa, pb => mkE pa pb :: lineEntries rest (shift pa w) (shift pb w)
+
+theorem addLine_eq (sm : SM) (ws : List Nat) (sl tl sc tc si ti : Nat) :
+    addLine sm ws sl tl sc tc si ti =
+      (⟨sm.s2t ++ lineEntries ws ⟨si, sl, sc⟩ ⟨ti, tl, tc⟩, sm.t2s ++ lineEntries ws ⟨ti, tl, tc⟩ ⟨si, sl, sc⟩⟩,
+        si + ws.sum + 1, ti + ws.sum + 1) := by
+  induction ws generalizing sm sc tc si ti with
+  | nil => simp [addLine, lineEntries, mkE]
+  | cons w rest ih =>
+    simp only [addLine, ih, lineEntries, mkE, shift, List.sum_cons, List.append_assoc, List.singleton_append]
+    simp only [Nat.add_assoc]
+
+def allEntries : List Bytes → Pos → Pos → List Entry
+  | [], _, _ => []
+  | l :: rest, pa, pb =>
+    lineEntries (runeWidths l) pa pb ++
+      allEntries rest (nextLine pa (runeWidths l).sum) (nextLine pb (runeWidths l).sum)
+
+def startPos (p : Pos) (li i : Nat) : Pos := ⟨i, p.line + li, if li == 0 then p.col else 0⟩
+
+theorem addLines_eq (sm : SM) (lines : List Bytes) (li : Nat) (sf tf : Pos) (si ti : Nat) :
+    addLines sm lines li sf tf si ti =
+      ⟨sm.s2t ++ allEntries lines (startPos sf li si) (startPos tf li ti),
+       sm.t2s ++ allEntries lines (startPos tf li ti) (startPos sf li si)⟩ := by
+  induction lines generalizing sm li si ti with
+  | nil => simp [addLines, allEntries]
+  | cons l rest ih =>
+    simp only [addLines, addLine_eq, ih, allEntries, List.append_assoc]
+    simp [startPos, nextLine, Nat.add_assoc]
+
+def entriesGo : Nat → Pos → Pos → Bytes → List Entry
+  | 0, pa, pb, _ => [mkE pa pb]
+  | _, pa, pb, [] => [mkE pa pb]
+  | fuel + 1, pa, pb, b :: rest =>
+    if b = 10 then mkE pa pb :: entriesGo fuel (advance pa [10]) (advance pb [10]) rest
+    else
+      let w := max (Utf8.decodeRune (b :: rest)).2 1
+      mkE pa pb :: entriesGo fuel (advance pa ((b :: rest).take w)) (advance pb ((b :: rest).take w)) ((b :: rest).drop w)
+
+def entryOf (value : Bytes) (a b : Pos) (k : Nat) : Entry :=
+  mkE (advance a (value.take k)) (advance b (value.take k))
+
+theorem go_entries (value : Bytes) (a b : Pos) (fuel : Nat) (pre s : Bytes) (hv : value = pre ++ s) :
+    (positionsOf.go fuel pre.length s).map (entryOf value a b)
+      = entriesGo fuel (advance a pre) (advance b pre) s := by
+  induction fuel generalizing pre s with
+  | zero => simp [positionsOf.go, entriesGo, entryOf, hv]
+  | succ fuel ih =>
+    cases s with
+    | nil => simp [positionsOf.go, entriesGo, entryOf, hv]
+    | cons c rest =>
+      have h0 : entryOf value a b pre.length = mkE (advance a pre) (advance b pre) := by
+        simp [entryOf, hv]
+      simp only [positionsOf.go, entriesGo]
+      by_cases hc : c = 10
+      · subst hc
+        simp only [if_true, List.map_cons, h0]
+        have := ih (pre ++ [10]) rest (by simp [hv])
+        simp only [List.length_append, List.length_singleton, advance_append] at this
+        rw [this]
+      · simp only [hc, if_false, List.map_cons, h0]
+        have hw := decodeRune_width_le (c :: rest)
+        generalize hwd : max (Utf8.decodeRune (c :: rest)).2 1 = w
+        have hwl : w ≤ (c :: rest).length := by simp at hw ⊢; omega
+        have := ih (pre ++ (c :: rest).take w) ((c :: rest).drop w) (by simp [hv])
+        simp only [List.length_append, List.length_take, Nat.min_eq_left hwl, advance_append] at this
+        rw [this]
+
+
+theorem splitLF_exists (s : Bytes) : ∃ l ls, splitLF s = l :: ls := by
+  induction s with
+  | nil => exact ⟨[], [], rfl⟩
+  | cons b rest ih =>
+    obtain ⟨l, ls, h⟩ := ih
+    simp only [splitLF]
+    split
+    · exact ⟨_, _, rfl⟩
+    · rw [h]; exact ⟨_, _, rfl⟩
+
+theorem splitLF_append_noLF (x y : Bytes) (l : Bytes) (ls : List Bytes) (hx : ∀ c ∈ x, c ≠ 10)
+    (hy : splitLF y = l :: ls) : splitLF (x ++ y) = (x ++ l) :: ls := by
+  induction x with
+  | nil => simpa using hy
+  | cons c rest ih =>
+    have hc : c ≠ 10 := hx c (by simp)
+    have := ih (fun d hd => hx d (by simp [hd]))
+    simp only [List.cons_append, splitLF, hc, if_false, this]
+
+theorem advance_noLF (p : Pos) (v : Bytes) (hv : ∀ c ∈ v, c ≠ 10) : advance p v = shift p v.length := by
+  induction v generalizing p with
+  | nil => simp [advance, shift]
+  | cons c rest ih =>
+    have hc : c ≠ 10 := hv c (by simp)
+    simp only [advance, hc, if_false]
+    rw [ih _ (fun d hd => hv d (by simp [hd]))]
+    simp [shift]; omega
+
+theorem runeWidthsAux_succ (f : Nat) (s : Bytes) (h : s ≠ []) :
+    runeWidthsAux (f + 1) s =
+      (if ((Utf8.decodeRune s).1 == Utf8.runeError && decide ((Utf8.decodeRune s).2 ≤ 1)) then 3
+        else max (Utf8.decodeRune s).2 1) :: runeWidthsAux f (s.drop (max (Utf8.decodeRune s).2 1)) := by
+  cases s with
+  | nil => exact absurd rfl h
+  | cons c rest => simp [runeWidthsAux]
+
+theorem runeWidthsAux_nil (f : Nat) : runeWidthsAux f [] = [] := by
+  cases f <;> simp [runeWidthsAux]
+
+theorem entriesGo_nil (f : Nat) (pa pb : Pos) : entriesGo f pa pb [] = [mkE pa pb] := by
+  cases f <;> simp [entriesGo]
+
+theorem main_aux (n : Nat) : ∀ s : Bytes, s.length ≤ n → ∀ fv, s.length ≤ fv → validUtf8Aux fv s = true →
+    ∀ l ls, splitLF s = l :: ls → ∀ f1, l.length ≤ f1 →
+      (runeWidthsAux f1 l).sum = l.length ∧
+      ∀ fg pa pb, s.length < fg →
+        entriesGo fg pa pb s = lineEntries (runeWidthsAux f1 l) pa pb ++
+          allEntries ls (nextLine pa l.length) (nextLine pb l.length) := by
+  induction n with
+  | zero =>
+    intro s hs fv _ _ l ls hsp f1 _
+    have : s = [] := List.length_eq_zero_iff.mp (by omega)
+    subst this
+    simp only [splitLF, List.cons.injEq] at hsp
+    obtain ⟨rfl, rfl⟩ := hsp
+    simp [runeWidthsAux_nil, entriesGo_nil, lineEntries, allEntries]
+  | succ n ih =>
+    intro s hs fv hfv hval l ls hsp f1 hf1
+    cases s with
+    | nil =>
+      simp only [splitLF, List.cons.injEq] at hsp
+      obtain ⟨rfl, rfl⟩ := hsp
+      simp [runeWidthsAux_nil, entriesGo_nil, lineEntries, allEntries]
+    | cons c rest =>
+      cases fv with
+      | zero => simp at hfv
+      | succ fv =>
+      simp only [List.length_cons] at hs hfv
+      by_cases hc : c = 10
+      · subst hc
+        have hd : Utf8.decodeRune (10 :: rest) = (10, 1) := by simp [Utf8.decodeRune]
+        simp only [validUtf8Aux, hd] at hval
+        simp at hval
+        obtain ⟨l', ls', hsp'⟩ := splitLF_exists rest
+        simp only [splitLF, if_true, hsp', List.cons.injEq] at hsp
+        obtain ⟨rfl, rfl⟩ := hsp
+        obtain ⟨hsum, hgo⟩ := ih rest (by omega) fv (by omega) hval.2 l' ls' hsp' l'.length (Nat.le_refl _)
+        refine ⟨by simp [runeWidthsAux_nil], ?_⟩
+        intro fg pa pb hfg
+        cases fg with
+        | zero => omega
+        | succ fg =>
+          simp only [List.length_cons] at hfg
+          simp only [entriesGo, if_true, runeWidthsAux_nil, lineEntries, allEntries, runeWidths, hsum]
+          rw [hgo fg _ _ (by omega)]
+          simp [advance, nextLine]
+      · generalize hd : Utf8.decodeRune (c :: rest) = rw at hval
+        obtain ⟨r, w⟩ := rw
+        simp only [validUtf8Aux, hd, Bool.and_eq_true, Bool.not_eq_true'] at hval
+        obtain ⟨hne, hval'⟩ := hval
+        obtain ⟨hw1, hnoLF, hdec⟩ := decodeRune_valid c rest r w hd hne
+        have hnoLF := hnoLF hc
+        have hwle : w ≤ rest.length + 1 := by
+          have := decodeRune_width_le (c :: rest); rw [hd] at this; simpa using this
+        have hmax : max w 1 = w := by omega
+        rw [hmax] at hval'
+        have htk : ((c :: rest).take w).length = w := by simp; omega
+        have hdl : ((c :: rest).drop w).length = rest.length + 1 - w := by simp
+        obtain ⟨l', ls', hsp'⟩ := splitLF_exists ((c :: rest).drop w)
+        have hsp2 := splitLF_append_noLF _ _ l' ls' hnoLF hsp'
+        rw [List.take_append_drop, hsp] at hsp2
+        simp only [List.cons.injEq] at hsp2
+        obtain ⟨rfl, rfl⟩ := hsp2
+        have hll : ((c :: rest).take w ++ l').length = w + l'.length := by rw [List.length_append, htk]
+        rw [hll] at hf1 ⊢
+        cases f1 with
+        | zero => omega
+        | succ f1 =>
+        obtain ⟨hsum, hgo⟩ := ih ((c :: rest).drop w) (by omega) fv (by omega) hval' l' ls hsp' f1 (by omega)
+        have hne' : (c :: rest).take w ++ l' ≠ [] := by
+          intro h; have := congrArg List.length h; rw [hll] at this; simp at this; omega
+        have hrw : runeWidthsAux (f1 + 1) ((c :: rest).take w ++ l') = w :: runeWidthsAux f1 l' := by
+          rw [runeWidthsAux_succ _ _ hne', hdec l']
+          simp only [hne, hmax]
+          rw [List.drop_left' htk]
+          simp
+        rw [hrw]
+        refine ⟨by simp [hsum], ?_⟩
+        intro fg pa pb hfg
+        cases fg with
+        | zero => omega
+        | succ fg =>
+          simp only [List.length_cons] at hfg
+          simp only [entriesGo, hc, if_false, hd, hmax, lineEntries]
+          rw [hgo fg _ _ (by omega), advance_noLF _ _ hnoLF, advance_noLF _ _ hnoLF, htk]
+          simp [shift, nextLine, Nat.add_assoc]
+
+
+theorem allEntries_split (value : Bytes) (a b : Pos) (hv : validUtf8 value = true) :
+    allEntries (splitLF value) a b = (positionsOf value).map (entryOf value a b) := by
+  obtain ⟨l, ls, hsp⟩ := splitLF_exists value
+  obtain ⟨hsum, hgo⟩ := main_aux value.length value (Nat.le_refl _) value.length (Nat.le_refl _) hv l ls hsp
+    l.length (Nat.le_refl _)
+  have h1 := go_entries value a b (value.length + 1) [] value rfl
+  simp only [List.length_nil, advance] at h1
+  rw [positionsOf, h1, hgo _ a b (Nat.lt_succ_self _), hsp, allEntries, runeWidths, hsum]
+
+theorem add_eq (sm : SM) (value : Bytes) (sf tf : Pos) (hv : validUtf8 value = true) :
+    add sm value sf tf = ⟨sm.s2t ++ (positionsOf value).map (entryOf value sf tf),
+      sm.t2s ++ (positionsOf value).map (entryOf value tf sf)⟩ := by
+  have hs : startPos sf 0 sf.index = sf := by simp [startPos]
+  have ht : startPos tf 0 tf.index = tf := by simp [startPos]
+  rw [add, addLines_eq, hs, ht, allEntries_split _ _ _ hv, allEntries_split _ _ _ hv]
+
+
+theorem go_le (fuel off : Nat) (s : Bytes) : ∀ k ∈ positionsOf.go fuel off s, k ≤ off + s.length := by
+  induction fuel generalizing off s with
+  | zero => intro k hk; simp [positionsOf.go] at hk; omega
+  | succ fuel ih =>
+    cases s with
+    | nil => intro k hk; simp [positionsOf.go] at hk; omega
+    | cons c rest =>
+      intro k hk
+      simp only [positionsOf.go] at hk
+      split at hk
+      · rcases List.mem_cons.mp hk with h | h
+        · omega
+        · have := ih _ _ k h; simp at this ⊢; omega
+      · have hw := decodeRune_width_le (c :: rest)
+        rcases List.mem_cons.mp hk with h | h
+        · omega
+        · have := ih _ _ k h
+          simp only [List.length_drop, List.length_cons] at this hw ⊢
+          omega
+
+theorem positionsOf_le (value : Bytes) : ∀ k ∈ positionsOf value, k ≤ value.length := by
+  intro k hk
+  have := go_le _ _ _ k hk
+  omega
+
+theorem advance_line_col (p : Pos) (m : Bytes) :
+    p.line ≤ (advance p m).line ∧ ((advance p m).line = p.line → (advance p m).col = p.col + m.length) := by
+  induction m generalizing p with
+  | nil => simp [advance]
+  | cons c rest ih =>
+    simp only [advance]
+    split
+    · have := ih { index := p.index + 1, line := p.line + 1, col := 0 }
+      simp only at this
+      constructor
+      · omega
+      · intro h; omega
+    · have := ih { index := p.index + 1, line := p.line, col := p.col + 1 }
+      simp only at this
+      constructor
+      · omega
+      · intro h; have := this.2 h; simp only [List.length_cons]; omega
+
+theorem advance_same_key (p : Pos) (m : Bytes) (hl : (advance p m).line = p.line) (hc : (advance p m).col = p.col) :
+    m = [] := by
+  have := (advance_line_col p m).2 hl
+  exact List.length_eq_zero_iff.mp (by omega)
+
+theorem key_inj_le (value : Bytes) (a : Pos) (k k' : Nat) (hkk : k ≤ k') (hk' : k' ≤ value.length)
+    (hl : (advance a (value.take k')).line = (advance a (value.take k)).line)
+    (hc : (advance a (value.take k')).col = (advance a (value.take k)).col) : k = k' := by
+  have e : value.take k' = value.take k ++ (value.drop k).take (k' - k) := by
+    have : k' = k + (k' - k) := by omega
+    rw [this, List.take_add]; simp
+  rw [e, advance_append] at hl hc
+  have := advance_same_key _ _ hl hc
+  have := congrArg List.length this
+  simp at this
+  omega
+
+theorem key_inj (value : Bytes) (a : Pos) (k k' : Nat) (hk : k ≤ value.length) (hk' : k' ≤ value.length)
+    (hl : (advance a (value.take k')).line = (advance a (value.take k)).line)
+    (hc : (advance a (value.take k')).col = (advance a (value.take k)).col) : k = k' := by
+  by_cases h : k ≤ k'
+  · exact key_inj_le value a k k' h hk' hl hc
+  · exact (key_inj_le value a k' k (by omega) hk hl.symm hc.symm).symm
+
+theorem lookup_append_new (pre new : List Entry) (l c : Nat) (p : Pos)
+    (hex : ∃ e ∈ new, e.line = l ∧ e.col = c)
+    (hall : ∀ e ∈ new, e.line = l → e.col = c → e.pos = p) :
+    lookup (pre ++ new) l c = some p := by
+  simp only [lookup, List.reverse_append, List.find?_append]
+  obtain ⟨e, he, hl, hc⟩ := hex
+  cases hf : new.reverse.find? (fun e => e.line == l && e.col == c) with
+  | none =>
+    have := List.find?_eq_none.mp hf e (by simpa using he)
+    simp [hl, hc] at this
+  | some e' =>
+    have hm := List.mem_of_find?_eq_some hf
+    have hp := List.find?_some hf
+    simp only [Bool.and_eq_true, beq_iff_eq] at hp
+    simp [hall e' (by simpa using hm) hp.1 hp.2]
+
+theorem lookup_append_skip (pre new : List Entry) (l c : Nat)
+    (hno : ∀ e ∈ new, ¬ (e.line = l ∧ e.col = c)) :
+    lookup (pre ++ new) l c = lookup pre l c := by
+  simp only [lookup, List.reverse_append, List.find?_append]
+  have : new.reverse.find? (fun e => e.line == l && e.col == c) = none := by
+    apply List.find?_eq_none.mpr
+    intro e he
+    have := hno e (by simpa using he)
+    simpa using this
+  simp [this]
+
+theorem lookup_some_hasLine (es : List Entry) (l c : Nat) (p : Pos) (h : lookup es l c = some p) :
+    hasLine es l = true := by
+  simp only [lookup, Option.map_eq_some_iff] at h
+  obtain ⟨e, hf, _⟩ := h
+  have hm := List.mem_of_find?_eq_some hf
+  have hp := List.find?_some hf
+  simp only [Bool.and_eq_true, beq_iff_eq] at hp
+  simp only [hasLine, List.any_eq_true, beq_iff_eq]
+  exact ⟨e, by simpa using hm, hp.1⟩
+
+theorem sourceOfAux_some (es : List Entry) (l c : Nat) (p : Pos) (h : lookup es l c = some p) :
+    sourceOfAux es l c = some p := by
+  cases c with
+  | zero => simpa [sourceOfAux] using h
+  | succ c => simp [sourceOfAux, h]
+
+theorem lookup_map_entryOf (pre : List Entry) (value : Bytes) (a b : Pos) (k : Nat) (hk : k ∈ positionsOf value) :
+    lookup (pre ++ (positionsOf value).map (entryOf value a b))
+      (advance a (value.take k)).line (advance a (value.take k)).col = some (advance b (value.take k)) := by
+  apply lookup_append_new
+  · exact ⟨entryOf value a b k, List.mem_map.mpr ⟨k, hk, rfl⟩, rfl, rfl⟩
+  · intro e he hl hc
+    obtain ⟨k', hk', rfl⟩ := List.mem_map.mp he
+    simp only [entryOf, mkE] at hl hc ⊢
+    have := key_inj value a k k' (positionsOf_le value k hk) (positionsOf_le value k' hk') hl hc
+    rw [this]
+
 /-- The heart of C07: after `add`, every rune-start / line-end position of the expression maps to the target
     position reached by advancing over the same bytes, and back. -/
 theorem add_maps (sm : SM) (value : Bytes) (sf tf : Pos) (hv : validUtf8 value = true)
@@ -53,7 +673,12 @@ theorem add_maps (sm : SM) (value : Bytes) (sf tf : Pos) (hv : validUtf8 value =
       = some (advance tf (value.take k)) ∧
     sourceOf (add sm value sf tf) (advance tf (value.take k)).line (advance tf (value.take k)).col
       = some (advance sf (value.take k)) := by
-  sorry
+  rw [add_eq sm value sf tf hv]
+  have h1 := lookup_map_entryOf sm.s2t value sf tf k hk
+  have h2 := lookup_map_entryOf sm.t2s value tf sf k hk
+  refine ⟨h1, ?_⟩
+  simp only [sourceOf, lookup_some_hasLine _ _ _ _ h2, if_true]
+  exact sourceOfAux_some _ _ _ _ h2
 
 /-- Keys (line, col) an `add` writes into the source→target table. -/
 def srcKeys (value : Bytes) (sf : Pos) : List (Nat × Nat) :=
@@ -63,6 +688,15 @@ def srcKeys (value : Bytes) (sf : Pos) : List (Nat × Nat) :=
 theorem add_no_clobber (sm : SM) (v1 v2 : Bytes) (s1 t1 s2 t2 : Pos) (hv2 : validUtf8 v2 = true)
     (line col : Nat) (hdis : (line, col) ∉ srcKeys v2 s2) :
     targetOf (add (add sm v1 s1 t1) v2 s2 t2) line col = targetOf (add sm v1 s1 t1) line col := by
-  sorry
+  rw [add_eq (add sm v1 s1 t1) v2 s2 t2 hv2]
+  simp only [targetOf]
+  apply lookup_append_skip
+  intro e he hkey
+  obtain ⟨k, hk, rfl⟩ := List.mem_map.mp he
+  apply hdis
+  simp only [srcKeys, List.mem_map]
+  refine ⟨k, hk, ?_⟩
+  simp only [entryOf, mkE] at hkey
+  rw [hkey.1, hkey.2]
 
 end TemplVerif.Proofs.Pos
